@@ -19,6 +19,7 @@ Inductive cop :=
 | KPad (kwargs : bool) (arg : ppt) (d : Z)          (* pad_to by d ticks; kwargs: pt_kwargs given *)
 | KRep (n : nat) (arg : ppt)                        (* with_repetition, ** *)
 | KRev2 (named_first : bool) (arg : ppt)            (* two reversals; the first one through the class with a name, or through with_time_reversal *)
+| KRev1 (arg : ppt)                                 (* with_time_reversal once, on a receiver of any class *)
 | KMap (ren mren : list (N * N)) (pm : list (pname * expr)) (arg : ppt)
 | KPar (values : list (chan * expr)) (arg : ppt)    (* with_parallel_channels *)
 | KParAtomic (args : list ppt)                      (* with_parallel_atomic *)
@@ -214,6 +215,7 @@ Definition ctor_expected (k : cop) (un : list N) (sc : scope) : option pt :=
                           else if N.eqb i 0 then x else ctor_rev 0 (unnamed un first) first
             | _ => ctor_rev 0 (unnamed un first) first
             end)
+  | KRev1 arg => let p := inst sc arg in Some (ctor_rev 0 (unnamed un p) p)
   | KMap ren mren pm arg => let p := inst (smap sc pm) arg in Some (ctor_map 0 (unnamed un p) ren mren p)
   | KPar values arg => let p := inst sc arg in Some (ctor_par 0 (unnamed un p) (inst_ov sc values) p)
   | KParAtomic args =>
@@ -242,7 +244,16 @@ Definition check_corr (c : case) : bool :=
   | CCrash => false
   end.
 
-(* ---- the property on the observations ---- *)
+(* ---- the property on the observations ----
+   check_spec below never calls compile / compile_q / model_obs / play / usample / to_waveform: it looks at the two
+   observations only.  The functions of Model.v it does call are chain_apply and chain_callk (with tr_apply, tr_callk, dot,
+   alookup, cunion, cdisj, csub, cdiff, oadd, omul).  They are the DENOTATION of the transformation value T - what
+   "T applied pointwise" means: an offset adds, a scaling multiplies, a parallel-channel transformation overwrites / adds,
+   a linear one is the matrix product on its inputs and forwards the rest; chain_callk = the channels T(data) has - and so
+   belong to the specification.  The model uses the same functions for TransformingWaveform because the code calls T
+   there; they are validated against the real Transformation.__call__ on every transformed case (a wrong chain_apply
+   breaks check_corr on the unchanged tree, a changed __call__ breaks check_spec).  harness/props/c05_search.py has a
+   second, dict-style definition (apply_trafo) used for searching, shrinking and classifying. *)
 Definition sample_at (s : list (chan * list oq)) (k : nat) (c : chan) : oq :=
   match alookup c s with Some l => nth k l None | None => None end.
 
